@@ -114,6 +114,9 @@ CORPUS_LISTS = [
     [b"abc", b""], [b"ab", b""], [b"", b"ab"], [b"", b"b", b"abb"], [b"abc", b"bc", b"c"],
     [b"a", b"ab", b"abc"], [b"abc", b"ab", b"a"], [b"ab", b"ab"], [b"abcd", b"bc", b"cd", b"d"],
     [b"aab", b"ab", b"b", b"aa"], [b"ba", b"a", b""], [b"samwise", b"sam"], [b"a", b"a", b""],
+    # one pattern supplied three and more times (a state that OWNS a match list of length >= 3, built by repeated
+    # add_match; with case folding also "Ab" / "aB" / "AB"), interleaved with others
+    [b"ab", b"ab", b"xab", b"ab", b"b", b"ab"], [b"a", b"a", b"a"], [b"Ab", b"aB", b"AB", b"ab", b"b"], [b"", b"", b"", b"a"],
 ]
 
 
@@ -121,7 +124,7 @@ TOP_CFGS = ["tnc.d.1.0.b", "tnc.0.1.0.u", "tc.d.1.0.u", "tc.0.0.0.b", "tc.3.1.0.
             "auto.d.1.0.u", "auto.d.1.0.b", "auto.d.0.0.a", "auto.d.1.1.u", "tc.d.1.1.b", "tdfa.d.1.1.u"]
 
 
-def _top_reqs(g, n, mks, ops):
+def _top_reqs(g, n, mks, ops, earliest=0):
     """The capstone model itself (TopLevel.lean: checked transcription of AhoCorasickBuilder::build + the public method
     on the built automaton) against the real AhoCorasick methods, for every top-level configuration"""
     out = []
@@ -136,6 +139,8 @@ def _top_reqs(g, n, mks, ops):
             kv["anch"] = 1
         if g.rng.random() < 0.2:
             kv["fold"] = 1
+        if earliest and op == "topfind" and g.rng.random() < earliest:
+            kv["earliest"] = 1
         if op == "topovl":
             kv["n"] = 3 + (len(pats) + 1) * (len(hay) + 1) if g.rng.random() < 0.5 else g.rng.randint(1, 6)
         kv["cfgs"] = cfgs(TOP_CFGS)
@@ -292,8 +297,15 @@ def gen_C11(tier, seed):
     g = Gen(seed)
     q = tier == "quick"
     cf = CFG_LOW + CFG_TOP + CFG_PRE
-    kinds = ["casey", "casey", "tiny"]
+    kinds = ["casey", "casey", "tiny", "dups3"]
     reqs = []
+    # "patterns differing only in case stay distinct patterns": three and more spellings of one word, every one reported
+    # with its own id by the overlapping search
+    for _ in range(qn(q, 40, 400)):
+        pats = g.dups3()
+        hay = g.hay(pats, 10, True)
+        reqs.append(fmt_req(g.rng.choice(["ovl", "ovliter"]), {"mk": "std", "pats": hxlist(pats), "hay": hx(hay), "fold": 1,
+                                                               "n": 4 + (len(pats) + 1) * (len(hay) + 1), "cfgs": cfgs(CFG_LOW + ["auto.d.1.1.u"])}))
     # case-insensitive searchers with each prefilter variant (start / rare bytes get both cases)
     for _ in range(qn(q, 150, 1500)):
         pats = pre_pats(g)
@@ -313,10 +325,11 @@ def gen_C11(tier, seed):
     reqs += _find_like(g, qn(q, 60, 600), ["std"], ["ovl", "ovliter"], cf, fold=True, pat_kinds=kinds)
     reqs += _find_like(g, qn(q, 60, 600), ["std", "lf", "ll"], ["find", "iter"], CFG_ANCH, anch=True,
                        fold=True, pat_kinds=kinds)
-    fixed = [[b"aB", b"Ab"], [b"A"], [b"a@", b"`A"], [b"[z", b"{Z"], [bytes([0xC1]), bytes([0xE1])], [b"Az", b"aZ", b"AZ"]]
+    fixed = [[b"aB", b"Ab"], [b"A"], [b"a@", b"`A"], [b"[z", b"{Z"], [bytes([0xC1]), bytes([0xE1])], [b"Az", b"aZ", b"AZ"],
+             [b"ab", b"AB", b"Ab", b"aB", b"b"]]
     certs = _fixed_certs(["std", "lf", "ll"], fixed, fold=True)
     certs += _certs(g, qn(q, 30, 300), ["std", "lf", "ll"], fold=1.0, pat_kinds=kinds)
-    return {"reqs": reqs, "certs": certs, "first": True, "gen": g}
+    return {"reqs": reqs, "certs": certs, "first": "bykind", "gen": g}
 
 
 def gen_C14(tier, seed):
@@ -325,6 +338,8 @@ def gen_C14(tier, seed):
     cf = CFG_LOW + CFG_TOP + CFG_PRE
     reqs = _find_like(g, qn(q, 200, 2000), ["std", "lf", "ll"], ["ismatch"], cf)
     reqs += _top_reqs(g, qn(q, 60, 600), ["std", "lf", "ll"], ["topismatch"])
+    # `earliest(true)` on every kind of searcher, through the capstone model (TopLevel2: Top_find_earliest)
+    reqs += _top_reqs(g, qn(q, 60, 600), ["std", "lf", "ll", "lf", "ll"], ["topfind"], earliest=0.8)
     # "true iff some pattern occurs" also with the default prefilters (a confirming prefilter must not invent a match)
     reqs += _near_miss_reqs(g, qn(q, 80, 800), ["ismatch", "find"], CFG_PRE + ["auto.d.1.1.b"])
     reqs += _find_like(g, qn(q, 100, 1000), ["std", "lf", "ll"], ["ismatch"], CFG_ANCH, anch=True)
@@ -513,24 +528,43 @@ def _streamself_small(g, n, repl):
     return out
 
 
+STREAM_OPS_ALL = STREAM_OPS + ["top" + o for o in STREAM_OPS]
+
+
+def _top_stream(g, reqs, n):
+    """the same stream requests, answered by the capstone model (TopLevel / TopLevel2: the builder's record and the gates
+    composed with the stream engine) and by the real methods of searchers built through every top-level configuration"""
+    small = [r for r in reqs if len(r) < 2000 and r.split(" ", 1)[0] in STREAM_OPS]
+    out = []
+    for r in g.rng.sample(small, min(n, len(small))):
+        head = r.split(" cfgs=")[0]
+        out.append("top" + head + " cfgs=" + cfgs(g.rng.sample(TOP_CFGS, 6)))
+    return out
+
+
 def gen_C07(tier, seed):
     g = Gen(seed)
-    return {"reqs": _stream_reqs(g, tier, "stream") + _streamself_reqs(g, tier, False) +
-            _streamself_small(g, 120 if tier == "quick" else 1500, False), "certs": [], "gen": g, "needs_consts": STREAM_OPS, "needs_cap": STREAM_OPS}
+    base = _stream_reqs(g, tier, "stream")
+    return {"reqs": base + _streamself_reqs(g, tier, False) +
+            _streamself_small(g, 120 if tier == "quick" else 1500, False) + _top_stream(g, base, 150 if tier == "quick" else 2000),
+            "certs": [], "gen": g, "needs_consts": STREAM_OPS_ALL, "needs_cap": STREAM_OPS_ALL}
 
 
 def gen_C08(tier, seed):
     g = Gen(seed)
-    return {"reqs": _stream_reqs(g, tier, "streamrep") + _stream_reqs(g, tier, "streamrepwith") +
-            _streamself_reqs(g, tier, True) + _streamself_small(g, 120 if tier == "quick" else 1500, True), "certs": [], "gen": g,
-            "needs_consts": STREAM_OPS, "needs_cap": STREAM_OPS}
+    base = _stream_reqs(g, tier, "streamrep") + _stream_reqs(g, tier, "streamrepwith")
+    return {"reqs": base +
+            _streamself_reqs(g, tier, True) + _streamself_small(g, 120 if tier == "quick" else 1500, True) +
+            _top_stream(g, base, 200 if tier == "quick" else 2500), "certs": [], "gen": g,
+            "needs_consts": STREAM_OPS_ALL, "needs_cap": STREAM_OPS_ALL}
 
 
 def gen_C18(tier, seed):
     g = Gen(seed)
     reqs = _stream_reqs(g, tier, "stream", faults=True) + _stream_reqs(g, tier, "streamrep", faults=True) + \
         _stream_reqs(g, tier, "streamrepwith", faults=True)
-    return {"reqs": reqs, "certs": [], "gen": g, "needs_consts": STREAM_OPS, "needs_cap": STREAM_OPS}
+    reqs = reqs + _top_stream(g, reqs, 200 if tier == "quick" else 2500)
+    return {"reqs": reqs, "certs": [], "gen": g, "needs_consts": STREAM_OPS_ALL, "needs_cap": STREAM_OPS_ALL}
 
 
 # (continuation bytes at both ends of their range, 0x80 and 0xBF, in every position of 2-, 3- and 4-byte characters)
@@ -763,6 +797,36 @@ def gen_C05(tier, seed):
             mk = g.rng.choice(["lf", "ll"])
             reqs.append(fmt_req(g.rng.choice(["find", "iter"]), {"mk": mk, "pats": hxlist(pats), "hay": hx(hay), "cfgs": cfgs(cf)}))
             reqs.append(fmt_req("pre", {"mk": mk, "pats": hxlist(pats), "hay": hx(hay), "s": 0, "e": len(hay), "cfgs": cfgs(["nc.d.1.1.b"])}))
+    # many fingerprints AND prefix pairs: 9..40 distinct patterns (more fingerprint groups than Teddy has buckets), shortest
+    # pattern 1..3 bytes, with several (prefix, extension) pairs placed far apart in the list, in both orders; whichever
+    # bucket each of them lands in, the confirmed match must be the one leftmost-first / leftmost-longest demands
+    for _ in range(qn(q, 40, 400)):
+        n = g.rng.choice([9, 10, 12, 16, 17, 18, 24, 33, 40])
+        seen, pats = set(), []
+        while len(pats) < n:
+            w = g.word(b"abcdefghijklmnop", 2, 5)
+            if w not in seen and not any(w.startswith(x) or x.startswith(w) for x in seen):
+                seen.add(w); pats.append(w)
+        pairs = []
+        for _ in range(g.rng.randint(1, 4)):
+            i = g.rng.randrange(len(pats))
+            long = pats[i] + g.word(b"abcdefgh", 1, 3)
+            short = pats[i][: g.rng.randint(1, min(3, len(pats[i])))]
+            if long in seen or short in seen:
+                continue
+            seen.add(long); seen.add(short)
+            pats[i] = long
+            j = g.rng.choice([0, len(pats), g.rng.randrange(len(pats) + 1)])
+            pats.insert(j, short)
+            pairs.append(long)
+        if not pairs:
+            continue
+        for _ in range(2):
+            picks = [g.rng.choice(pairs), g.rng.choice(pairs), g.rng.choice(pats)]
+            hay = b"z" * g.rng.choice([0, 1, 21]) + (b"z" * g.rng.choice([17, 23, 40])).join(picks) + b"z" * g.rng.choice([0, 20, 33])
+            mk = g.rng.choice(["lf", "ll"])
+            reqs.append(fmt_req(g.rng.choice(["find", "iter", "iter"]), {"mk": mk, "pats": hxlist(pats), "hay": hx(hay), "cfgs": cfgs(cf)}))
+            reqs.append(fmt_req("pre", {"mk": mk, "pats": hxlist(pats), "hay": hx(hay), "s": 0, "e": len(hay), "cfgs": cfgs(["nc.d.1.1.b"])}))
     # the prefilters themselves: variant chosen + candidate for a span, against the L3 model
     pcf = ["nc.d.1.1.b", "c.d.1.1.b", "dfa.d.1.1.u"]
     for _ in range(qn(q, 300, 4000)):
@@ -916,7 +980,25 @@ def gen_C10(tier, seed):
                                 "note": "bytes outside the span changed the result"})
         run.cov["span_triples_compared"] = len(triples) * len(cf)
         return [b for b in bad if b["impl"] == b["model"]]  # the rest is already reported by the model diff
-    return {"reqs": reqs, "certs": [], "gen": g, "post": post}
+    # (appended AFTER the triples, whose indices are relative to the start of `reqs`): spans through the capstone model
+    # (TopLevel2: Top_find_span / Top_find_frame / Top_find_iter_span / Top_find_iter_frame)
+    reqs += _top_reqs(g, qn(q, 80, 800), ["std", "lf", "ll"], ["topfind", "topiter"], earliest=0.2)
+    # the packed searcher's own `find_in` (src/packed/api.rs slices per engine: Teddy by pointer pair, Rabin-Karp by
+    # `haystack[..span.end]`): every engine variant, an occurrence that straddles or follows span.end, short and long spans
+    for _ in range(qn(q, 120, 1200)):
+        pats = [g.word(b"abcdefgh", 1, 6) for _ in range(g.rng.randint(1, 8))]
+        pats = list(dict.fromkeys(p for p in pats if p)) or [b"ab"]
+        alpha, foreign = g.alphabet(pats)
+        p0 = g.rng.choice(pats)
+        lead = g.rng.choice([0, 1, 2, 5, 18, 33, 70])
+        hay = bytes([foreign]) * lead + p0 + bytes([foreign]) * g.rng.randint(0, 4) + g.rng.choice(pats) + bytes([foreign]) * g.rng.randint(0, 3)
+        s0 = g.rng.randint(0, min(3, lead))
+        e0 = min(len(hay), lead + g.rng.randint(0, len(p0) + 2))
+        if s0 > e0:
+            s0 = e0
+        reqs.append(fmt_req("packed", {"mk": g.rng.choice(["lf", "ll"]), "pats": hxlist(pats), "hay": hx(hay), "s": s0, "e": e0,
+                                       "api": "find", "pcfg": ";".join(PACKED_VARIANTS)}))
+    return {"reqs": reqs, "certs": [], "gen": g, "post": post, "needs_cpu": True}
 
 
 PACKED_VARIANTS = ["rk", "teddy", "slim128", "slim256", "fat", "default"]
@@ -1188,6 +1270,27 @@ def gen_C19(tier, seed):
                     ko["anch"] = 1
                 ko["n"] = 2 + min(40, (len(pats) + 1) * (len(hay) + 1))
                 reqs.append(fmt_req("cost", ko))
+    # a span that ends long before the haystack does: no work counter may grow with what lies BEHIND the span
+    for _ in range(qn(q, 60, 600)):
+        if g.rng.random() < 0.6:
+            # start-byte / rare-byte prefilter lists and a span full of FALSE candidates (a start byte followed by a
+            # foreign byte): the search falls back into the start state inside the span and runs the prefilter again
+            starts = g.rng.sample(list(b"abc"), g.rng.randint(1, 3))
+            pats = [bytes([c]) + bytes(g.rng.choice(b"pq") for _ in range(g.rng.randint(1, 3))) for c in starts]
+            head = b"".join(g.rng.choice([bytes([g.rng.choice(starts)]) + b"z", b"z", b"zz", bytes([g.rng.choice(starts)]) + b"pz"])
+                            for _ in range(g.rng.randint(1, 8)))
+        else:
+            pats = pre_pats(g)
+            head = pre_hay(g, pats)
+        alpha, foreign = g.alphabet(pats)
+        tail = bytes([foreign]) * g.rng.choice([100, 300, 1000]) + (g.rng.choice(pats) if g.rng.random() < 0.5 else b"")
+        hay = head + tail
+        s0 = g.rng.randint(0, len(head)); e0 = g.rng.randint(s0, len(head))
+        kv = {"api": g.rng.choice(["find", "find", "ovl"]), "mk": g.rng.choice(["std", "lf", "ll"]), "pats": hxlist(pats), "hay": hx(hay),
+              "s": s0, "e": e0, "cfgs": cfgs(cf)}
+        if kv["api"] == "ovl":
+            kv["mk"] = "std"; kv["n"] = 6
+        reqs.append(fmt_req("cost", kv))
     # stream searches: the transitions of a whole search, for many refills (small reads, little spare room) and long
     # patterns (what a refill could re-scan is as long as the longest pattern)
     for _ in range(qn(q, 60, 600)):
@@ -1255,6 +1358,23 @@ def gen_C13(tier, seed):
                             if anch:
                                 kv["anch"] = 1
                             reqs.append(fmt_req("gate", kv))
+    # the same table through the capstone model (TopLevel2: Top_rejection_iff): which error, if any, the real method returns
+    for op in ("topfind", "topismatch", "topiter", "topovl", "topstream", "topstreamrep", "topstreamrepwith"):
+        for mk in ("std", "lf", "ll"):
+            for anch in ((0,) if op.startswith("topstream") else (0, 1)):
+                for noempty, withempty in lists:
+                    for pats in (noempty, withempty):
+                        top = ["%s.d.1.0.%s" % (k, sk) for k in ("tnc", "tc", "tdfa", "auto") for sk in "uab"]
+                        kv = {"mk": mk, "pats": hxlist(pats), "hay": hx(b"xabx"), "cfgs": cfgs(top)}
+                        if anch:
+                            kv["anch"] = 1
+                        if op == "topovl":
+                            kv["n"] = 3
+                        if op.startswith("topstream"):
+                            kv["sched"] = "3,1"; kv["spare"] = 1
+                            if op != "topstream":
+                                kv["repl"] = hxlist([b"R"] * len(pats))
+                        reqs.append(fmt_req(op, kv))
     return {"reqs": reqs, "certs": [], "gen": g, "exhaustive": True}
 
 
